@@ -28,13 +28,13 @@ Judge(e) ==
       m == e.scene.m
       R == SymSegs(e.segs)
       F == SymSegs(e.flat)
-      say(ok, why) == ok \/ (PrintT(<<"BAD", l, why>>) /\ FALSE)
+      say(ok, why) == IF ok THEN TRUE ELSE (PrintT(<<"BAD", l, why>>) /\ FALSE)
   IN /\ say(e.off = 0, "vertex-not-on-a-lattice-edge")
      /\ say(SameBag(R, F), "hierarchical-output-differs-from-exhaustive-output")
      /\ say(AllZeroCrossings(sc, e.segs), "vertex-is-not-the-linear-zero-crossing")
      /\ say(SameBag(F, FlatLines(sc, m)), "exhaustive-output-differs-from-flat-scan-model")
-     /\ ((e.decisions = Decisions(sc, <<0, 0>>, TopLevel(m))) \/ PrintT(<<"DRIFT", l>>))
-Next == /\ l <= Len(Trace) /\ l' = l + 1 /\ (Judge(Trace[l]) \/ TRUE)
+     /\ (IF (e.decisions = Decisions(sc, <<0, 0>>, TopLevel(m))) THEN TRUE ELSE PrintT(<<"DRIFT", l>>))
+Next == /\ l <= Len(Trace) /\ l' = l + 1 /\ (IF Judge(Trace[l]) THEN TRUE ELSE TRUE)
 Spec == Init /\ [][Next]_l
 Report == l = Len(Trace) + 1 => PrintT(<<"CONSUMED", l - 1>>)
 =============================================================================
